@@ -245,8 +245,9 @@ def header_params(td):
     """generic parameters as they must appear in every impl header (defaults removed)"""
     out = []
     for p in td.params:
+        a = (p["attr"] + " ") if p.get("attr") else ""
         if p["kind"] == "const":
-            out.append("const %s: %s" % (p["name"], p.get("cty", "usize")))
+            out.append(a + "const %s: %s" % (p["name"], p.get("cty", "usize")))
         else:
-            out.append(p["name"] + (": " + " + ".join(p["bounds"]) if p.get("bounds") else ""))
+            out.append(a + p["name"] + (": " + " + ".join(p["bounds"]) if p.get("bounds") else ""))
     return out
